@@ -45,6 +45,8 @@ def Not(x: Any) -> Any:
 def Implies(a: Any, b: Any) -> Any:
     """b may be a thunk (lambda: ...) so that native evaluation is lazy like `not a or b`."""
     if _sym(a):
+        if z3.is_false(z3.simplify(V_._b(a))):
+            return VBool(True)
         bv = b() if callable(b) and not isinstance(b, V) else b
         return VBool(z3.Implies(V_._b(a), V_._b(bv)))
     if not a:
